@@ -185,8 +185,13 @@ def h_special(sx):
             cfg0.setup_tag_expression()
         cfg = base_config(("--no-summary",))
         cfg.tag_expression_protocol = TagExpressionProtocol.V2 if sx.params.get("protocol", "v2") == "v2" else TagExpressionProtocol.AUTO_DETECT
-        cfg.config_tags = dtext
-        cfg.default_tags = ""
+        if sx.bool("configured_through_default_tags"):
+            # the configured expression may come from the option default_tags instead of tags
+            cfg.config_tags = None
+            cfg.default_tags = dtext
+        else:
+            cfg.config_tags = dtext
+            cfg.default_tags = ""
         cfg.tags = outer if not sx.params.get("as_list") else [outer]
         if sx.params.get("as_list") and outer == "{config.tags} and x":
             # several --tags options, the placeholder in only one of them
